@@ -10,6 +10,8 @@
      Units          the shipped texts
      Needs[u]       modules imported unconditionally anywhere in unit u
      Unbalanced[u]  names that an "import from execnet ... except ImportError: import from __main__" pair binds in one branch only
+     Unresolved[u]  global names unit u reads at run time that neither u, nor the text executed before it in the same namespace
+                    (gateway_base + "import socket" for SocketIO), nor the builtins bind
      Stdlib         the standard library's top-level module names
      Ships[p]       units that path p transmits
 *)
@@ -21,6 +23,7 @@ UnitRec(u) == P.units[CHOOSE i \in 1..Len(P.units) : P.units[i].name = u]
 ToSet(s) == {s[i] : i \in 1..Len(s)}
 Needs(u) == ToSet(UnitRec(u).needs)
 Unbalanced(u) == ToSet(UnitRec(u).unbalanced)
+Unresolved(u) == ToSet(UnitRec(u).unresolved)
 Stdlib == ToSet(P.stdlib)
 Ships(p) == CASE p = "import" -> {}
               [] p = "exec" -> {"gateway_base"}
@@ -35,7 +38,7 @@ VARIABLES path, child, phase
 vars == <<path, child, phase>>
 Init == path \in Paths /\ child \in Children /\ phase = "spawned"
 \* the child executes what it was sent: every module the text imports must be importable there
-Loadable == \A u \in Ships(path) : Needs(u) \subseteq Avail(child) /\ Unbalanced(u) = {}
+Loadable == \A u \in Ships(path) : Needs(u) \subseteq Avail(child) /\ Unbalanced(u) = {} /\ Unresolved(u) = {}
 SendSource == phase = "spawned" /\ phase' = "sent" /\ UNCHANGED <<path, child>>
 ChildExec == /\ phase = "sent"
              /\ phase' = IF path = "import" THEN (IF "execnet" \in Avail(child) THEN "ready" ELSE "import_error")
@@ -48,6 +51,6 @@ Spec == Init /\ [][Next]_vars /\ WF_vars(Next)
 
 \* C15: every path that ships source comes up on a child that has only the standard library
 SourceBootstrapNeedsNothing == (path # "import" /\ phase \in {"import_error", "eof"}) => FALSE
-ShippedIsSelfContained == \A p \in Paths \ {"import"} : \A u \in Ships(p) : Needs(u) \subseteq Stdlib /\ Unbalanced(u) = {}
+ShippedIsSelfContained == \A p \in Paths \ {"import"} : \A u \in Ships(p) : Needs(u) \subseteq Stdlib /\ Unbalanced(u) = {} /\ Unresolved(u) = {}
 ComesUp == (path # "import" \/ child = "with_execnet") => <>(phase = "serving")
 =============================================================================
